@@ -96,7 +96,17 @@ impl SdJwtVc {
     let metadata_url = {
       let origin = self.claims().iss.origin().ascii_serialization();
       let path = self.claims().iss.path();
-      format!("{origin}{WELL_KNOWN_VC_ISSUER}{path}").parse().unwrap()
+      let url = format!("{origin}{WELL_KNOWN_VC_ISSUER}{path}");
+      // Issuers without a tuple origin (e.g. `did:` or `urn:` URLs) have no well-known location.
+      match url.parse() {
+        Ok(url) => url,
+        Err(e) => {
+          return Err(Error::Resolution {
+            input: url,
+            source: ResolverErr::ParsingFailure(anyhow!("invalid issuer metadata URL: {e}")),
+          })
+        }
+      }
     };
     match resolver.resolve(&metadata_url).await {
       Err(ResolverErr::NotFound(_)) => Ok(None),
